@@ -4,15 +4,20 @@ package harness
 
 import (
 	"bufio"
+	"context"
 	"encoding/json"
 	"errors"
+	"fmt"
+	"math/rand"
 	"os"
 	"strconv"
 	"strings"
 	"testing"
+	"testing/synctest"
 	"time"
 
 	"github.com/ali-assar/NATS-Leader-Election/leader"
+	"github.com/nats-io/nats.go"
 )
 
 // ---- helpers: NDJSON in / out ---------------------------------------------------------------
@@ -137,4 +142,402 @@ func TestConfigs(t *testing.T) {
 			w.put(res)
 		}
 	})
+}
+
+// ---- C15: every error term enumerated by ErrClass.tla is built as a real Go value and classified by the
+// real predicates; the NATS leaves are additionally captured from an embedded server through the adapter ----
+
+func buildLeaf(name string, real map[string]error) error {
+	if e, ok := real[name]; ok {
+		return e
+	}
+	switch name {
+	case "ErrNotLeader":
+		return leader.ErrNotLeader
+	case "ErrAlreadyStarted":
+		return leader.ErrAlreadyStarted
+	case "ErrElectionFailed":
+		return leader.ErrElectionFailed
+	case "ErrHeartbeatFailed":
+		return leader.ErrHeartbeatFailed
+	case "ErrConnectionLost":
+		return leader.ErrConnectionLost
+	case "ErrTokenMismatch":
+		return leader.ErrTokenMismatch
+	case "ErrTokenInvalid":
+		return leader.ErrTokenInvalid
+	case "ErrInvalidConfig":
+		return leader.ErrInvalidConfig
+	case "ErrBucketNotFound":
+		return leader.ErrBucketNotFound
+	case "ErrPermissionDenied":
+		return leader.ErrPermissionDenied
+	case "Canceled":
+		return context.Canceled
+	case "DeadlineExceeded":
+		return context.DeadlineExceeded
+	case "TimeoutError":
+		return leader.NewTimeoutError("heartbeat update", time.Second, nil)
+	case "ValidationErrorLeaf":
+		return leader.NewValidationError("TTL", time.Second, "TTL must be positive")
+	case "nats_conflict":
+		return errWrongLastSeq(7)
+	case "nats_keyexists":
+		return errKeyExists(7)
+	case "nats_keynotfound":
+		return nats.ErrKeyNotFound
+	case "nats_timeout":
+		return nats.ErrTimeout
+	case "nats_noresponders":
+		return nats.ErrNoResponders
+	case "nats_connclosed":
+		return nats.ErrConnectionClosed
+	case "nats_bucketnotfound":
+		return nats.ErrBucketNotFound
+	case "nats_permviolation":
+		return errors.New("nats: permissions violation for publish to \"$KV.leaders.group\"")
+	case "text_neutral":
+		return errors.New("something odd happened")
+	case "text_revision":
+		return errors.New("store says: Revision Mismatch on key")
+	case "text_access":
+		return errors.New("Access Denied by policy")
+	case "text_auth":
+		return errors.New("nats: Authentication Timeout")
+	case "text_timeoutword":
+		return errors.New("i/o timeout while reading")
+	}
+	return nil
+}
+
+func wrapWith(w string, e error) error {
+	switch w {
+	case "w":
+		return fmt.Errorf("while refreshing the record: %w", e)
+	case "w_invalid":
+		return fmt.Errorf("invalid state: %w", e)
+	case "election":
+		return leader.NewElectionError("E_ACQUIRE", "instance-1", "acquire failed", e)
+	case "tokenval":
+		return &leader.TokenValidationError{LocalToken: "a", KvToken: "b", LeaderID: "instance-1", Reason: "check failed", Err: e}
+	case "timeout":
+		return leader.NewTimeoutError("fetch", 2*time.Second, e)
+	case "validation":
+		return &leader.ValidationError{Field: "TTL", Value: 1, Reason: "bad", Err: e}
+	case "join":
+		return errors.Join(e, errors.New("and one more thing"))
+	case "v":
+		return fmt.Errorf("failed: %v", e)
+	}
+	return e
+}
+
+// captureRealNATS provokes the client's own error values against an embedded server through the adapter.
+func captureRealNATS(t *testing.T) map[string]error {
+	res := map[string]error{}
+	ctx, cancel := context.WithCancel(context.Background())
+	defer cancel()
+	srv, err := leader.StartEmbeddedNATSServer(ctx)
+	if err != nil {
+		t.Logf("embedded server unavailable: %v", err)
+		return res
+	}
+	nc, err := nats.Connect(srv.ClientURL(), nats.Timeout(2*time.Second))
+	if err != nil {
+		t.Logf("connect: %v", err)
+		return res
+	}
+	js, _ := nc.JetStream(nats.MaxWait(500 * time.Millisecond))
+	if _, err := js.CreateKeyValue(&nats.KeyValueConfig{Bucket: "c15", Storage: nats.MemoryStorage}); err != nil {
+		t.Logf("bucket: %v", err)
+		return res
+	}
+	kv, err := leader.VerifNewNATSKeyValue(nc, "c15")
+	if err != nil {
+		t.Logf("adapter: %v", err)
+		return res
+	}
+	rev, _ := kv.Create("g", []byte("v1"))
+	_, res["real_keyexists"] = kv.Create("g", []byte("v2"))
+	_, res["real_conflict"] = kv.Update("g", []byte("v3"), rev+5)
+	_, res["real_keynotfound"] = kv.Get("absent")
+	_, res["real_bucketnotfound"] = leader.VerifNewNATSKeyValue(nc, "no-such-bucket")
+	srv.Shutdown()
+	time.Sleep(100 * time.Millisecond)
+	_, res["real_timeout_or_noresponders"] = kv.Update("g", []byte("v4"), rev)
+	nc.Close()
+	_, res["real_connclosed"] = kv.Update("g", []byte("v4"), rev)
+	for k, v := range res {
+		if v == nil {
+			delete(res, k)
+		}
+	}
+	return res
+}
+
+func TestErrClass(t *testing.T) {
+	in, out := os.Getenv("VERIF_IN"), os.Getenv("VERIF_OUT")
+	if in == "" || out == "" {
+		t.Skip()
+	}
+	seed, _ := strconv.ParseInt(os.Getenv("VERIF_SEED"), 10, 64)
+	nrand, _ := strconv.Atoi(os.Getenv("VERIF_NRANDOM"))
+	w := newRowWriter(t, out)
+	defer w.close()
+	real := captureRealNATS(t)
+	// the captured values stand for the constructed NATS leaves of the same class
+	alias := map[string]string{"real_keyexists": "nats_keyexists", "real_conflict": "nats_conflict", "real_keynotfound": "nats_keynotfound",
+		"real_connclosed": "nats_connclosed", "real_bucketnotfound": "nats_bucketnotfound"}
+	emit := func(leaf string, ws []string, e error, note string) {
+		w.put(map[string]any{"leaf": leaf, "ws": ws, "isnil": e == nil, "perm": leader.IsPermanentError(e), "trans": leader.IsTransientError(e),
+			"text": func() string {
+				if e == nil {
+					return ""
+				}
+				s := e.Error()
+				if len(s) > 160 {
+					s = s[:160]
+				}
+				return s
+			}(), "note": note})
+	}
+	emit("nil", []string{}, nil, "nil")
+	readRows(t, in, func(line []byte) {
+		var r struct {
+			Leaf string   `json:"leaf"`
+			Ws   []string `json:"ws"`
+		}
+		if err := json.Unmarshal(line, &r); err != nil {
+			t.Fatal(err)
+		}
+		if r.Ws == nil {
+			r.Ws = []string{}
+		}
+		e := buildLeaf(r.Leaf, nil)
+		if e == nil {
+			t.Fatalf("unknown leaf %s", r.Leaf)
+		}
+		for _, x := range r.Ws {
+			e = wrapWith(x, e)
+		}
+		emit(r.Leaf, r.Ws, e, "constructed")
+	})
+	for name, e := range real {
+		leaf, ok := alias[name]
+		if !ok {
+			// after server shutdown the client answers with its time-out or no-responders error
+			switch {
+			case errors.Is(e, nats.ErrTimeout):
+				leaf = "nats_timeout"
+			case errors.Is(e, nats.ErrNoResponders):
+				leaf = "nats_noresponders"
+			default:
+				leaf = "nats_connclosed"
+			}
+		}
+		emit(leaf, []string{}, e, "captured:"+name)
+		emit(leaf, []string{"w"}, wrapWith("w", e), "captured:"+name)
+		emit(leaf, []string{"election"}, wrapWith("election", e), "captured:"+name)
+	}
+	rng := rand.New(rand.NewSource(seed))
+	words := []string{"revision mismatch", "key not found", "permission denied", "bucket not found", "access denied", "invalid", "authentication",
+		"timeout", "deadline exceeded", "connection lost", "connection refused", "temporary", "unavailable", "network", "i/o timeout", "connection reset",
+		"wrong last sequence", "key exists", "nats:", "leader", "x", "ERROR", "Ünïcode", "\n", "%w", ""}
+	for k := 0; k < nrand; k++ {
+		var sb strings.Builder
+		for j := rng.Intn(5); j >= 0; j-- {
+			wd := words[rng.Intn(len(words))]
+			if rng.Intn(3) == 0 {
+				wd = strings.ToUpper(wd)
+			}
+			sb.WriteString(wd)
+			sb.WriteString([]string{" ", ": ", "", "-"}[rng.Intn(4)])
+		}
+		var e error = errors.New(sb.String())
+		ws := []string{}
+		for j := rng.Intn(3); j > 0; j-- {
+			x := []string{"w", "w_invalid", "election", "tokenval", "timeout", "validation", "join", "v"}[rng.Intn(8)]
+			e = wrapWith(x, e)
+			ws = append(ws, x)
+		}
+		emit("random", ws, e, "random")
+	}
+}
+
+// ---- C17: scenarios enumerated by Retry.tla executed on the real RetryWithBackoff / CircuitBreaker /
+// CalculateBackoff under virtual time ---------------------------------------------------------
+
+func TestRetry(t *testing.T) {
+	inR, inB, out := os.Getenv("VERIF_IN_RETRY"), os.Getenv("VERIF_IN_BREAKER"), os.Getenv("VERIF_OUT")
+	if inR == "" || out == "" {
+		t.Skip()
+	}
+	seed, _ := strconv.ParseInt(os.Getenv("VERIF_SEED"), 10, 64)
+	reps, _ := strconv.Atoi(os.Getenv("VERIF_BACKOFF_REPS"))
+	w := newRowWriter(t, out)
+	defer w.close()
+
+	type rs struct {
+		Max   int      `json:"max"`
+		Outs  []string `json:"outs"`
+		Ckind string   `json:"ckind"`
+		Cat   int      `json:"cat"`
+		Thr   int      `json:"thr"`
+	}
+	var retries []rs
+	readRows(t, inR, func(line []byte) {
+		var r rs
+		if err := json.Unmarshal(line, &r); err != nil {
+			t.Fatal(err)
+		}
+		if r.Outs == nil {
+			r.Outs = []string{}
+		}
+		retries = append(retries, r)
+	})
+	bo := leader.BackoffConfig{InitialBackoff: 50 * time.Millisecond, MaxBackoff: 400 * time.Millisecond, BackoffMultiplier: 2, Jitter: 0.1}
+	synctest.Test(t, func(t *testing.T) {
+		for _, r := range retries {
+			cfg := leader.RetryConfig{MaxAttempts: r.Max, BackoffConfig: bo}
+			if r.Thr > 0 {
+				cfg.CircuitBreaker = leader.NewCircuitBreaker(r.Thr, 1000*time.Second)
+			}
+			ctx, cancel := context.WithCancel(context.Background())
+			if r.Ckind == "before" {
+				cancel()
+			}
+			calls := 0
+			var times []time.Time
+			fn := func() error {
+				calls++
+				times = append(times, time.Now())
+				if calls > 40 {
+					cancel() // safety net against a runaway loop; reported through the call count
+				}
+				if r.Ckind == "wait" && calls == r.Cat {
+					base := 50 * time.Millisecond << (calls - 1)
+					if base > 400*time.Millisecond {
+						base = 400 * time.Millisecond
+					}
+					time.AfterFunc(base*4/10, cancel)
+				}
+				o := "ok"
+				if calls <= len(r.Outs) {
+					o = r.Outs[calls-1]
+				}
+				switch o {
+				case "trans":
+					return errors.New("temporary glitch")
+				case "perm":
+					return leader.ErrPermissionDenied
+				}
+				return nil
+			}
+			err := leader.RetryWithBackoff(ctx, cfg, fn)
+			cancel()
+			res := "other"
+			switch {
+			case err == nil:
+				res = "nil"
+			case errors.Is(err, context.Canceled):
+				res = "ctx"
+			case err.Error() == "circuit breaker is open":
+				res = "open"
+			case strings.HasPrefix(err.Error(), "max attempts"):
+				res = "max"
+			case errors.Is(err, leader.ErrPermissionDenied):
+				res = "perm"
+			}
+			waits := []int64{}
+			for k := 1; k < len(times); k++ {
+				waits = append(waits, int64(times[k].Sub(times[k-1])/time.Microsecond))
+			}
+			w.put(map[string]any{"kind": "retry", "max": r.Max, "outs": r.Outs, "ckind": r.Ckind, "cat": r.Cat, "thr": r.Thr,
+				"calls": calls, "res": res, "waits": waits})
+			time.Sleep(time.Second) // let pending AfterFunc timers fire
+		}
+	})
+
+	type bs struct {
+		Thr  int      `json:"thr"`
+		Gaps []string `json:"gaps"`
+		Outs []string `json:"outs"`
+	}
+	var brs []bs
+	if inB != "" {
+		readRows(t, inB, func(line []byte) {
+			var b bs
+			if err := json.Unmarshal(line, &b); err != nil {
+				t.Fatal(err)
+			}
+			if b.Gaps == nil {
+				b.Gaps, b.Outs = []string{}, []string{}
+			}
+			brs = append(brs, b)
+		})
+	}
+	synctest.Test(t, func(t *testing.T) {
+		const C = 1000 * time.Nanosecond
+		for _, b := range brs {
+			cb := leader.NewCircuitBreaker(b.Thr, C)
+			invoked, res := []bool{}, []string{}
+			for k := range b.Gaps {
+				gap := map[string]time.Duration{"0": 0, "C-1": C - 1, "C": C, "C+1": C + 1}[b.Gaps[k]]
+				time.Sleep(gap)
+				called := false
+				err := cb.Call(func() error {
+					called = true
+					if b.Outs[k] == "ok" {
+						return nil
+					}
+					return errors.New("operation failed")
+				})
+				invoked = append(invoked, called)
+				switch {
+				case err == nil:
+					res = append(res, "ok")
+				case !called:
+					res = append(res, "open")
+				default:
+					res = append(res, "err")
+				}
+			}
+			w.put(map[string]any{"kind": "breaker", "thr": b.Thr, "gaps": b.Gaps, "outs": b.Outs, "invoked": invoked, "res": res})
+		}
+	})
+
+	// CalculateBackoff samples
+	rng := rand.New(rand.NewSource(seed))
+	ns := []int{0, 1, 2, 3, 5, 10, 30, 62, 63, 64, 100, 1000, 1023, 1024, 1025, 2000, 1000000, 2000000000}
+	for _, init := range []int{0, 1, 50, 1000} {
+		for _, max := range []int{1, 5000, 100000} {
+			if max < init {
+				continue
+			}
+			for _, m := range [][2]int{{1, 1}, {3, 2}, {2, 1}, {3, 1}, {10, 1}} {
+				for _, jit := range []int{0, 10, 50, 100} {
+					for _, n := range ns {
+						for rep := 0; rep < reps; rep++ {
+							nn := n
+							if rep > 0 && rng.Intn(2) == 0 {
+								nn = rng.Intn(70)
+							}
+							cfg := leader.BackoffConfig{InitialBackoff: time.Duration(init) * time.Millisecond, MaxBackoff: time.Duration(max) * time.Millisecond,
+								BackoffMultiplier: float64(m[0]) / float64(m[1]), Jitter: float64(jit) / 100}
+							d := leader.CalculateBackoff(cfg, nn)
+							us := int64(d / time.Microsecond)
+							if us > 2000000000 {
+								us = 2000000000
+							}
+							if us < -2000000000 {
+								us = -2000000000
+							}
+							w.put(map[string]any{"kind": "backoff", "init_ms": init, "max_ms": max, "num": m[0], "den": m[1], "jit_pct": jit, "n": nn,
+								"result_us": us, "isneg": d < 0})
+						}
+					}
+				}
+			}
+		}
+	}
 }
